@@ -1,4 +1,8 @@
 ENGINES = [
+    {"name": "E1 sibling equivalence", "path": "xfabsa/siblings.py, xfabsa/signatures.py", "serves_properties": ["C14"],
+     "kind_free_text": "normalised-AST comparison of the tools/laue pairs with tau-site detection"},
+    {"name": "E4 path rules", "path": "props/c20.py", "serves_properties": ["C20", "C06", "C19"],
+     "kind_free_text": "syntax-directed guard dominance, who-may-call and who-may-write rules"},
     {"name": "E3 algebraic value numbering", "path": "xfabsa/symeval.py, xfabsa/poly.py",
      "serves_properties": ["C01", "C02", "C03", "C07", "C08", "C09", "C10", "C13", "C16"],
      "kind_free_text": "abstract interpreter over the ast with rational-function normal forms (no solver, no sampling)"},
@@ -9,6 +13,24 @@ ENGINES = [
 ]
 
 CHECKS = [
+    {"id": "C14", "engine": "E1 sibling equivalence + E3",
+     "technique": "normalised-AST comparison of the 41 sibling pairs; E3 normal-form equality up to the tau-weight signature for scale-sensitive pairs",
+     "text": "Complete for the property as stated over the reals: the 41 pairs are enumerated; pairs that are scale-insensitive "
+             "must have identical normalised syntax trees (same operations in the same order); every pair that carries a 2*pi "
+             "factor, takes or returns a B matrix / g-vector, or calls such a function is evaluated in both modules by E3 on the "
+             "same symbolic input scaled by tau^weight, callees opaque at their signature weight (induction over the call "
+             "graph), and the results must be related by exactly the documented tau^weight.",
+     "note": "Trusted: the signature table of tau-weights (xfabsa/signatures.py, from the docstrings); positive homogeneity of "
+             "numpy's QR for ub_to_u_b (paper argument, listed); CPython ast. One known finding (shared with C13)."},
+    {"id": "C20", "engine": "E4 syntax-directed path rules",
+     "technique": "guard-dominance / who-may-call / who-may-write rules over the ast of every non-test file; E3 for the predicates",
+     "text": "Complete for the property as stated: all call sites of checks._check_* in the repository are enumerated and must be "
+             "guarded by exactly `if CHECKS.activated:` with nothing else in the block; each API named by the property must "
+             "check the right value before any use (inputs) or before returning it (outputs); every raise is ValueError; the "
+             "predicates are compared with the stated ones by E3 and their tolerances must lie in the window that accepts "
+             "float32 rotations and rejects 1e-3 perturbations; the switch is a two-state automaton with a single writer.",
+     "note": "Trusted: numpy.allclose semantics (|a-b| <= atol + rtol*|b|); CPython ast. A positive example "
+             "(selftest/positive/c20_unguarded.py) must make the zero-count rule fire on every run."},
     {"id": "C01", "engine": "E3 algebraic value numbering",
      "technique": "abstract interpretation of the syntax tree into rational-function normal forms; equality with unique closed forms",
      "text": "Every entry of form_a_mat, form_b_mat, cell_volume, cell_invert and sintl^2, in both modules, is canonicalised "
